@@ -898,7 +898,7 @@ fn run(cfg: &Cfg) -> Report {
             }
         }
     }
-    let cases = cfg.tier.pick(60000u32, 3000000u32);
+    let cases = cfg.tier.pick(600000u32, 3000000u32);
     rep.absorb(run_proptest(
         cfg,
         "tokens",
@@ -914,6 +914,7 @@ fn run(cfg: &Cfg) -> Report {
         // coverage-guided campaign: bytes select whitespace and up to 40 vocabulary tokens
         // (libFuzzer target `parse`, same reference parser as the oracle)
         rep.absorb(run_libfuzzer(cfg, "parse", 4_000_000, 48, &[], &[], fuzz_bytes));
+        rep.rule.push_str("; thorough tier: followed by a coverage-guided libFuzzer campaign (16 jobs x 4,000,000 executions, empty starting corpus) whose bytes select whitespace and up to 40 vocabulary tokens, judged by the same reference parser inside the fuzz target; its executions are included in evaluations (class libfuzzer:parse:executions), not in distinct_nontrivial");
     }
     rep.assume("where the book's table (separate rows for / and *, - and +) and the EBNF (one left-associative level each) differ, the EBNF is the documented grammar; implicit multiplication continues only before a decimal number, an identifier, `(` or `?`; a trailing comma is accepted in argument lists, lists and struct fields");
     rep
